@@ -365,15 +365,15 @@ package simpledb
 // holds newer values than an older one, so whatever subset is left reads like the merged table).
 
 //@ func (*DB).repairCompactions
-//@   props C10 C02
+//@   props C10 C02 C06
 //@   replay crash_points
-//@   call 0 of os.Rename: assert [C10,C02:slot-cleared-before-the-merged-table-moves-in] called(os.RemoveAll, 1) && callres(os.RemoveAll, 1, 0) == nil &&
+//@   call 0 of os.Rename: assert [C10,C02,C06:slot-cleared-before-the-merged-table-moves-in] called(os.RemoveAll, 1) && callres(os.RemoveAll, 1, 0) == nil &&
 //@        arg0 == absWritePath && arg1 == absReplacementPath
-//@   call 2 of os.RemoveAll: assert [C10,C02:inputs-removed-after-the-merged-table-is-in-place] called(os.Rename, 0) && callres(os.Rename, 0, 0) == nil &&
+//@   call 2 of os.RemoveAll: assert [C10,C02,C06:inputs-removed-after-the-merged-table-is-in-place] called(os.Rename, 0) && callres(os.Rename, 0, 0) == nil &&
 //@        sstablePath != meta.ReplacementPath
 //@   // (the inputs are removed in list order, oldest first: the innermost range loop around the removal runs over
 //@   //  meta.SstablePaths - `ranged` is the slice that loop ranges over, `iter` its iteration number)
-//@   call 2 of os.RemoveAll: assert [C10:inputs-removed-in-list-order] 0 < iter && ranged === meta.SstablePaths
+//@   call 2 of os.RemoveAll: assert [C10,C06:inputs-removed-in-list-order] 0 < iter && ranged === meta.SstablePaths
 //@   modifies nothing
 //@   exit [C10:errors-fail-the-open] (called(os.RemoveAll, 0) && callres(os.RemoveAll, 0, 0) != nil) || (called(os.RemoveAll, 1) && callres(os.RemoveAll, 1, 0) != nil) ||
 //@        (called(os.Rename, 0) && callres(os.Rename, 0, 0) != nil) || (called(os.RemoveAll, 2) && callres(os.RemoveAll, 2, 0) != nil) ==> r0 != nil
@@ -441,14 +441,14 @@ package simpledb
 // and closed in a nested literal that is inlined): a compaction folder is finished only if its success flag could be opened
 // and its metadata record read; otherwise it is only scheduled for deletion; the flag reader is closed whenever it was created.
 //@ func repairCompactions$1
-//@   props C10 C02 C19
+//@   props C10 C02 C19 C06
 //@   requires [plausible-lists] len(compactionsToFinish) < 4611686018427387904 && len(compactionsToDelete) < 4611686018427387904
-//@   exit [C10,C02:only-a-readable-flag-is-finished] len(compactionsToFinish) != old(len(compactionsToFinish)) ==>
+//@   exit [C10,C02,C06:only-a-readable-flag-is-finished] len(compactionsToFinish) != old(len(compactionsToFinish)) ==>
 //@        called(ReaderI.Open, 0) && callres(ReaderI.Open, 0, 0) == nil && called(ReaderI.ReadNext, 0) && callres(ReaderI.ReadNext, 0, 1) == nil
 //@   // (if closing the flag reader fails after a successful read the folder ends up in both lists: an I/O fault on close of a
 //@   //  read-only file, outside the crash-point quantifier of C02 / C10; the clause excludes it explicitly)
-//@   exit [C10,C02:finished-or-deleted-never-both] len(compactionsToFinish) != old(len(compactionsToFinish)) && callres(ReaderI.Close, 0, 0) == nil ==>
+//@   exit [C10,C02,C06:finished-or-deleted-never-both] len(compactionsToFinish) != old(len(compactionsToFinish)) && callres(ReaderI.Close, 0, 0) == nil ==>
 //@        len(compactionsToDelete) == old(len(compactionsToDelete))
-//@   exit [C10,C02:a-readable-flag-is-finished-not-deleted] called(ReaderI.ReadNext, 0) && callres(ReaderI.ReadNext, 0, 1) == nil && callres(ReaderI.Close, 0, 0) == nil ==>
+//@   exit [C10,C02,C06:a-readable-flag-is-finished-not-deleted] called(ReaderI.ReadNext, 0) && callres(ReaderI.ReadNext, 0, 1) == nil && callres(ReaderI.Close, 0, 0) == nil ==>
 //@        len(compactionsToFinish) == old(len(compactionsToFinish)) + 1 && len(compactionsToDelete) == old(len(compactionsToDelete))
 //@   exit [C19:flag-reader-closed] called(proto.NewReader, 0) && callres(proto.NewReader, 0, 1) == nil ==> called(ReaderI.Close, 0)
